@@ -699,9 +699,12 @@ def canon(obj, depth=0):
     if n == 'SequenceContainer':
         return ('SequenceContainer', obj.name, [(type(e).__name__, e.name) for e in obj.entry_list],
                 obj.base_container_name, canon(obj.restriction_criteria, depth + 1), bool(obj.abstract),
-                obj.short_description, obj.long_description, sorted(obj.inheritors))
+                obj.short_description, obj.long_description, sorted(obj.inheritors),
+                _extra_state(obj, ('name', 'entry_list', 'base_container_name', 'restriction_criteria', 'abstract',
+                                   'short_description', 'long_description', 'inheritors'), depth))
     if n == 'Parameter':
-        return ('Parameter', obj.name, obj.parameter_type.name, obj.short_description, obj.long_description)
+        return ('Parameter', obj.name, obj.parameter_type.name, obj.short_description, obj.long_description,
+                _extra_state(obj, ('name', 'parameter_type', 'short_description', 'long_description'), depth))
     if hasattr(obj, '__dict__'):
         items = []
         for k in sorted(vars(obj)):
@@ -710,6 +713,18 @@ def canon(obj, depth=0):
             items.append((k, canon(getattr(obj, k), depth + 1)))
         return (n, items)
     return repr(obj)
+
+
+def _extra_state(obj, known, depth):
+    """instance attributes beyond the declared ones (state cached on a definition object shows up here)"""
+    out = []
+    for k in sorted(getattr(obj, '__dict__', {})):
+        if k in known:
+            continue
+        v = getattr(obj, k)
+        out.append((k, getattr(v, 'name', None) if hasattr(v, 'entry_list') or hasattr(v, 'parameter_type')
+                    else canon(v, depth + 1)))
+    return out
 
 
 def canon_definition(d):
